@@ -8,6 +8,8 @@ package evalfilter
 // optimisation.
 
 import (
+	"strings"
+
 	"github.com/skx/evalfilter/v2/code"
 	"github.com/skx/evalfilter/v2/object"
 	"github.com/skx/evalfilter/v2/zzsv"
@@ -18,6 +20,7 @@ func init() {
 	zzsv.Register("ZZ_C18_Literals", ZZ_C18_Literals)
 	zzsv.Register("ZZ_C18_Operands", ZZ_C18_Operands)
 	zzsv.Register("ZZ_C18_LongPrograms", ZZ_C18_LongPrograms)
+	zzsv.Register("ZZ_C18_FunctionTails", ZZ_C18_FunctionTails)
 }
 
 type zzInstr struct {
@@ -315,4 +318,65 @@ func ZZ_C18_LongPrograms(sv *zzsv.T) {
 	e, err := zzPrepare(sv, src, map[string]zv{"A": zInt(5), "p": zInt(0)}, []string{"A", "p"}, sv.Choice("noopt", 2) == 1, &trace)
 	sv.Assume(err == nil)
 	zzVerifyEval(sv, "C18.long", e)
+}
+
+var zzC18Last = []string{
+	"x = a;", "a;", "a + 1;", "t(a);", "a++;", "local q;", "local q; q = a;",
+	"if (a) { return 1; }", "if (a) { return 1; } else { return 2; }", "if (a) { x = 1; } else { return 2; }",
+	"while (a < 2) { a++; }", "for (a < 2) { return a; }",
+	"foreach v in [1, 2] { if (v == a) { return v; } }", "foreach i, v in 1..2 { x = v; }",
+	"switch (a) { case 1 { return 1; } default { return 2; } }", "switch (a) { case 1 { return 1; } }",
+	"a ? 1 : 2;", "return a ? 1 : 2;", "return;", "return a;",
+	"function inner(b) { return b; }", "function inner(b) { x = b; }", "function inner() { }",
+	"function inner(b) { function innermost() { return 1; } }",
+	"{ }", "[a, 1];", "{\"k\": a};", "a[0];", "-a;", "!a;", "\"s\";", "1.5;", "/re/;", "x = a ? 1 : 2;", "x += 1;",
+}
+
+// ZZ_C18_FunctionTails: a function body may end in any kind of statement -
+// including another function definition - and may sit anywhere a definition
+// is allowed: every body of the compiled program (each compiled exactly once)
+// still ends in a return on every path and is otherwise well formed, and
+// calling the functions as statements never fails with one of the machine's
+// internal errors.
+func ZZ_C18_FunctionTails(sv *zzsv.T) {
+	last := zzC18Last[sv.Choice("last", len(zzC18Last))]
+	pre := []string{"", "x = 1; ", "if (a) { x = 2; } ", "function before() { return 3; } "}[sv.Choice("pre", 4)]
+	body := pre + last
+	var src string
+	switch sv.Choice("place", 4) {
+	case 0:
+		src = "function outer(a) { " + body + " } outer(A); outer(A); return 1;"
+	case 1: // defined inside another function, after which that function goes on
+		src = "function host(a) { function outer(a) { " + body + " } outer(a); return 5; } host(A); outer(A); return 1;"
+	case 2: // defined as the last thing in another function
+		src = "function host(a) { x = a; function outer(a) { " + body + " } } host(A); outer(A); return 1;"
+	default: // two definitions in a row, used before they appear
+		src = "outer(A); other(A); function outer(a) { " + body + " } function other(a) { " + body + " } return 1;"
+	}
+	sv.Note("script", src)
+	a := sv.Int64("A")
+	// (loops over `a` in the tails: keep the trip count small)
+	sv.Assume(a >= -1 && a <= 3)
+	var trace []object.Object
+	e, err := zzPrepare(sv, src, map[string]zv{"A": zInt(a)}, []string{"A"}, sv.Choice("noopt", 2) == 1, &trace)
+	if err != nil {
+		// (some tails are not statements of the language: nothing to verify)
+		sv.Reach("C18.tails.rejected")
+		return
+	}
+	zzVerifyEval(sv, "C18.tails", e)
+	out, rerr := e.Execute(nil)
+	zzDescribe(sv, "result", out, rerr)
+	if rerr != nil {
+		msg := rerr.Error()
+		internal := false
+		for _, m := range []string{"empty stack", "instruction pointer", "unhandled opcode", "out of bounds", "access constant"} {
+			if strings.Contains(msg, m) {
+				internal = true
+			}
+		}
+		sv.Assert("C18.tails.no_internal_error", !internal)
+	} else {
+		sv.Assert("C18.tails.result", zzSame(sv, out, zInt(1)))
+	}
 }
